@@ -16,7 +16,8 @@ CONSTANTS EP,        \* endpoint names
           Types,     \* endpoint types explored
           AllowedChoices,  \* {{}} when generating (the table is data), SUBSET Types when model checking
           Focus,           \* GEN: only scenarios with a refusing endpoint among all-healthy ones
-          Strats           \* GEN: routing-strategy variants of the server ("plain", "disc_all")
+          Strats,          \* GEN: routing-strategy variants of the server ("plain", "disc_all")
+          DropFocus        \* GEN: only scenarios in which one endpoint re-lists without the shared model
 
 VARIABLES prefix, allowed, typ, H,
           phase,     \* "cfg" | "sent" | "served" | "answered"
@@ -40,7 +41,11 @@ Init == /\ prefix \in Prefixes /\ allowed \in AllowedChoices
               /\ (~Focus => R = {})
               \* strat "disc_all": the server runs the discovery routing strategy with fallback "all" and refresh on
               \* miss, and the request names a model nobody lists -- the lenient fallback must stay inside the provider
-              /\ \E st \in Strats : scn = [prefix |-> prefix, types |-> typ, H |-> H, refuse |-> R, strat |-> st]
+              \* drop: endpoints that re-list without the model all endpoints share (DropFocus: exactly one, all healthy)
+              /\ \E st \in Strats : \E dr \in SUBSET (DOMAIN typ) :
+                    /\ (DropFocus => Cardinality(dr) = 1 /\ H = DOMAIN typ /\ R = {})
+                    /\ (~DropFocus => dr = {})
+                    /\ scn = [prefix |-> prefix, types |-> typ, H |-> H, refuse |-> R, strat |-> st, drop |-> dr]
 
 Send == phase = "cfg" /\ phase' = "sent" /\ UNCHANGED <<prefix, allowed, typ, H, served, scn>>
 \* only a healthy endpoint of the provider's kind may be contacted
